@@ -5,6 +5,7 @@ import HC.Proofs.Sync
 import HC.Proofs.Replica
 import HC.Proofs.Growth
 import HC.Proofs.HashReq
+import HC.Proofs.ReplicaReopen
 /-!
 # C03 — any honest proof is accepted and replicas converge to the writer's data
 
@@ -326,5 +327,47 @@ theorem honest_hash_is_writers (C : Crypto) (bs : Array Bytes) (tw : Tree) (fw :
   obtain ⟨_, hin', hd0⟩ := HashReq.missingNodes_spec_node C bs bs.size c.tree d.tree h.closed.sparse hs d0 o0 hin
   refine ⟨_, HashReq.create_hash_proof C bs tw fw hT hN hs d0 o0 _ hd0 hin', ?_⟩
   simp [HashReq.honestHash, hf]
+
+/-- **C03 at core level, from creation, across restarts.**  A replica is created with `Hypercore::new` over empty stores
+    from the writer's public key alone; first contact at length `n₁`; then any list of acts — upgrades to larger lengths
+    of the writer's log, block requests and hash requests inside the current length, and *closing and reopening the
+    stores* (`Hypercore::new` with no key pair), in any order.  Every application answers `true`, every reopen succeeds
+    (without writing to the stores); at the end the replica reports the last length and its byte length, every fetched
+    block reads back byte-identical to the writer's and every other index reads as not held — whatever was fetched
+    before a restart is still there after it, and a restarted replica goes on exactly where it stopped. -/
+theorem replica_reopens (C : Crypto) (hC : TreeStore.HashWF C) (hT : TreeStore.TreeWF C) (bs : Array Bytes)
+    (hs : bs.size < 2 ^ 62 ∧ Offsets.psum bs bs.size < 2 ^ 64) (pk : Bytes) (hpk : pk.length = 32)
+    (n₁ : Nat) (h0 : 0 < n₁) (hn : n₁ ≤ bs.size) (sig : Bytes) (hsl : sig.length = 64)
+    (hver : C.verify pk (Growth.signableAt C bs n₁ 0) sig = true)
+    (acts : List ReplicaReopen.ActR) (hok : HashReq.OkActs C bs pk 0 n₁ (ReplicaReopen.exchanges acts)) :
+    ∃ c j, Core.openCore C (some (pk, none)) {} = .ok (c, j) ∧
+      let d := ({} : Disk).applyAll j
+      let st1 := c.verifyAndApply C d (Growth.honestFirst C bs 0 n₁ sig)
+      let s2 := ReplicaReopen.playR C bs (st1.core, d.applyAll st1.journal) acts
+      st1.result = .ok true
+        ∧ ReplicaReopen.resultsR C bs (st1.core, d.applyAll st1.journal) acts = acts.map (fun _ => .ok true)
+        ∧ s2.1.tree.length = HashReq.lenAfter n₁ (ReplicaReopen.exchanges acts)
+        ∧ s2.1.tree.byteLength = Offsets.psum bs (HashReq.lenAfter n₁ (ReplicaReopen.exchanges acts))
+        ∧ (∀ i, HashReq.fetched (ReplicaReopen.exchanges acts) i = true → (s2.1.getBlock s2.2 i).result = .ok (some (bs.getD i [])))
+        ∧ (∀ i, HashReq.fetched (ReplicaReopen.exchanges acts) i = false → (s2.1.getBlock s2.2 i).result = .ok none) := by
+  obtain ⟨c, j, e1, e2, e3, e4, e5⟩ := ReplicaReopen.init_replica C pk hpk
+  refine ⟨c, j, e1, ?_⟩
+  intro d st1 s2
+  have hsz := Growth.size_extract bs n₁ hn
+  have hfresh := e4 (bs.extract 0 n₁) ⟨by rw [hsz]; omega, by
+    rw [hsz, Growth.psum_extract bs n₁ hn n₁ (Nat.le_refl _)]
+    have := Offsets.psum_mono bs hn; omega⟩
+  have hver' : C.verify c.publicKey (Growth.signableAt C bs n₁ c.tree.fork) sig = true := by rw [e2, e3]; exact hver
+  obtain ⟨r1, r2, r3, r4⟩ := ReplicaReopen.rp_first C hC hT bs hs n₁ h0 hn c d hfresh ⟨_, _, e5⟩ sig hsl hver'
+  rw [e3] at r1 r2 r3 r4
+  obtain ⟨q1, q2⟩ := ReplicaReopen.playR_rp C hC hT bs pk 0 acts n₁ _ _ _ r2 h0 (by rw [r3, e2]) r4 hok
+  refine ⟨r1, q2, q1.rep.closed.sparse.length, q1.rep.bytes, fun i hi => ?_, fun i hi => ?_⟩
+  · exact Growth.get_held_at C bs _ _ _ _ q1.rep i (by simp [hi])
+  · exact Growth.get_missing_at C bs _ _ _ _ q1.rep i (by simp [hi])
+
+/-- non-vacuity: a run with a restart between two fetches meets the hypotheses -/
+example (C : Crypto) (bs : Array Bytes) (pk : Bytes) (h : 2 ≤ bs.size) :
+    HashReq.OkActs C bs pk 0 2 (ReplicaReopen.exchanges [.act (.fetch 1), .reopen, .act (.hash 1 0), .reopen, .act (.fetch 0)]) := by
+  simp [ReplicaReopen.exchanges, HashReq.OkActs]
 
 end HC.C03
